@@ -6,19 +6,70 @@ use crate::nd::Nd;
 use incan::lsp::diagnostics::{offset_to_position, position_to_offset, span_to_range};
 use tower_lsp::lsp_types::Position;
 
+/// Well-formed UTF-8 (RFC 3629 / Unicode Table 3-7), byte by byte. Used instead of `core::str::from_utf8`, whose
+/// word-at-a-time validator dominates CBMC's run time; `utf8_validator_matches_std` proves the two agree.
+pub fn valid_utf8(b: &[u8]) -> bool {
+    let n = b.len();
+    let mut i = 0;
+    while i < n {
+        let c = b[i];
+        if c < 0x80 {
+            i += 1;
+        } else if c >= 0xC2 && c <= 0xDF {
+            if i + 1 >= n || (b[i + 1] & 0xC0) != 0x80 {
+                return false;
+            }
+            i += 2;
+        } else if c >= 0xE0 && c <= 0xEF {
+            if i + 2 >= n {
+                return false;
+            }
+            let (lo, hi) = if c == 0xE0 { (0xA0, 0xBF) } else if c == 0xED { (0x80, 0x9F) } else { (0x80, 0xBF) };
+            if b[i + 1] < lo || b[i + 1] > hi || (b[i + 2] & 0xC0) != 0x80 {
+                return false;
+            }
+            i += 3;
+        } else if c >= 0xF0 && c <= 0xF4 {
+            if i + 3 >= n {
+                return false;
+            }
+            let (lo, hi) = if c == 0xF0 { (0x90, 0xBF) } else if c == 0xF4 { (0x80, 0x8F) } else { (0x80, 0xBF) };
+            if b[i + 1] < lo || b[i + 1] > hi || (b[i + 2] & 0xC0) != 0x80 || (b[i + 3] & 0xC0) != 0x80 {
+                return false;
+            }
+            i += 4;
+        } else {
+            return false;
+        }
+    }
+    true
+}
+
 pub fn doc<'a, N: Nd, const M: usize>(nd: &mut N, buf: &'a mut [u8; M]) -> &'a str {
     for k in 0..M {
         buf[k] = nd.u8();
     }
     let len = nd.usize();
     nd.assume(len <= M);
-    match core::str::from_utf8(&buf[..len]) {
-        Ok(s) => s,
-        Err(_) => {
-            nd.assume(false);
-            unreachable!()
-        }
+    nd.assume(valid_utf8(&buf[..len]));
+    #[cfg(not(kani))]
+    assert!(core::str::from_utf8(&buf[..len]).is_ok(), "harness bug: valid_utf8 accepted ill-formed UTF-8");
+    unsafe { core::str::from_utf8_unchecked(&buf[..len]) }
+}
+
+/// The byte-wise validator and std's agree on every byte string of at most M bytes.
+pub fn validator_body<N: Nd, const M: usize>(nd: &mut N) {
+    let mut buf = [0u8; M];
+    for k in 0..M {
+        buf[k] = nd.u8();
     }
+    let len = nd.usize();
+    nd.assume(len <= M);
+    let mine = valid_utf8(&buf[..len]);
+    let std_ok = core::str::from_utf8(&buf[..len]).is_ok();
+    assert!(mine == std_ok, "valid_utf8 disagrees with core::str::from_utf8");
+    vcover!(mine && len == M && buf[0] >= 0xF0, "a 4-byte scalar accepted");
+    vcover!(!mine && len == 3 && buf[0] == 0xED, "a surrogate rejected");
 }
 
 /// Oracle: line = number of '\n' before `off`; character = scalars since the last '\n'.
@@ -122,6 +173,9 @@ pub fn span_body<N: Nd, const M: usize>(nd: &mut N) {
 }
 
 harnesses! {
+    #[kani::unwind(6)]
+    fn c19_utf8_validator_matches_std_n4(nd) { validator_body::<_, 4>(nd) }
+
     // small documents: cheap, and still decidable when a change pulls heavier std code (lines(), find()) into the
     // conversion functions and the n4/n6 harnesses no longer finish within the cap
     #[kani::unwind(4)]
